@@ -316,27 +316,48 @@ func c16a(c *Ctx) {
 	c.OK("confinement/scanned", "-", fmt.Sprintf("%d functions carry the (enable, path) pair; all uses are call arguments", len(roles)))
 	// 6. raw statement: same text in both arms
 	if fn := c.Fn("emitter.Emitter.emitRawStatement"); fn != nil {
-		var plainW, lineW *writeSite
+		// The text pieces written without markers, and those written per line with markers, each put
+		// together in program order: however the pieces are cut (one Sprintf, text and line break
+		// written separately, a directly returned concatenation), the whole must be "%s\n" of the
+		// value respectively of the line at hand.
 		var ws []writeSite
 		for _, w := range c.sitesOf(fn) {
 			if w.origin != emit { // marker lines are the subject of C16.b
 				ws = append(ws, w)
 			}
 		}
-		for i := range ws {
-			if ws[i].isFmt && ws[i].format == "%s\n" && len(ws[i].argT) == 1 {
-				t := ws[i].argT[0]
-				if t == "$1.Value" {
-					plainW = &ws[i]
-				}
-				if strings.HasPrefix(t, `strings.Split($1.Value,"\n")[phi(`) && strings.HasSuffix(t, "+1]") {
-					lineW = &ws[i]
-				}
+		off := mkDNF([]string{"-$0.enableLineMarkers"}, []string{"-(0 < builtin:len($0.inputFilepath))"})
+		type piece struct {
+			format string
+			argT   []string
+		}
+		var offP, onP piece
+		var onSites []writeSite
+		ok := len(ws) >= 2
+		for _, w := range ws {
+			f, a := w.format, w.argT
+			if !w.isFmt && !w.konst {
+				f, a = "%s", []string{c.term(fn, w.arg)}
+			} else if w.konst {
+				f = strings.ReplaceAll(f, "%", "%%")
+			}
+			if dnfEquiv(w.cond, off) {
+				offP.format += f
+				offP.argT = append(offP.argT, a...)
+			} else {
+				onP.format += f
+				onP.argT = append(onP.argT, a...)
+				onSites = append(onSites, w)
 			}
 		}
-		ok := plainW != nil && lineW != nil && len(ws) == 2
-		if ok {
-			ok = dnfEquiv(plainW.cond, mkDNF([]string{"-$0.enableLineMarkers"}, []string{"-(0 < builtin:len($0.inputFilepath))"})) && noEarlyExit(c, fn, lineW.call.Block())
+		ok = ok && offP.format == "%s\n" && len(offP.argT) == 1 && offP.argT[0] == "$1.Value"
+		ok = ok && onP.format == "%s\n" && len(onP.argT) == 1 && strings.HasPrefix(onP.argT[0], `strings.Split($1.Value,"\n")[phi(`) && strings.HasSuffix(onP.argT[0], "+1]")
+		// the per-line pieces are written one after the other in every turn
+		for k, w := range onSites {
+			if k > 0 {
+				ok = ok && dnfEquiv(w.cond, onSites[0].cond) && onSites[k-1].call.Block().Dominates(w.call.Block())
+			}
+			ok = ok && noEarlyExit(c, fn, w.call.Block())
 		}
 		c.Check(ok, "emitRawStatement/same-text", c.W.FuncPos(fn), "without markers: Value + newline; with markers: every line of Value + newline, each preceded by its marker", "the raw block is not written as (Value + \"\\n\") without markers and as every line of Split(Value, \"\\n\") + \"\\n\" with markers")
 	}
